@@ -48,8 +48,10 @@ def run_standard(chk, spec, replay=None):
         bad, errors = chk.coq_eval(spec["header"], cases, timeout=spec.get("coq_timeout", 1500), **ekw)
         for e in errors:
             proof_broken.append("a cases shard failed to evaluate: " + e["output"][-600:])
-    structure_only = [b for b in bad if b[1] == 2]
-    real_bad = [b for b in bad if b[1] != 2]
+    # opt-in (C16 only): a result code that means "same observable, different stored structure"
+    scode = spec.get("structure_code")
+    structure_only = [b for b in bad if scode is not None and b[1] == scode]
+    real_bad = [b for b in bad if scode is None or b[1] != scode]
     if structure_only:
         chk.notes.append("%d cases agree on the property's observable but differ from the model in stored structure (information only)" % len(structure_only))
     # violation protocol: every disagreement is looked at (listed known findings must not
